@@ -904,6 +904,15 @@ class BaseWorkflow(object, metaclass=abc.ABCMeta):
             prev_task_set = set()
             for output_task in output_task_set:
                 for prev_task, dependency in output_task.input_task_list:
+                    prev_task_set.add(prev_task)
+            # Each task of the next level is recalculated from all of its successors
+            # calculated so far (not compared with the value stored by an earlier visit,
+            # which may come from a successor whose own values have changed since).
+            for prev_task in prev_task_set:
+                is_first_candidate = True
+                for output_task, dependency in prev_task.output_task_list:
+                    if output_task not in calculated_task_set:
+                        continue
                     pre_lft = prev_task.lft
                     lst = 0
                     lft = 0
@@ -929,14 +938,14 @@ class BaseWorkflow(object, metaclass=abc.ABCMeta):
                     # smallest lft wins; on a tie the smaller lst (not the task visited
                     # last in this unordered set)
                     if (
-                        prev_task not in calculated_task_set
+                        is_first_candidate
                         or pre_lft > lft
                         or (pre_lft == lft and prev_task.lst > lst)
                     ):
                         prev_task.lst = lst
                         prev_task.lft = lft
-                        calculated_task_set.add(prev_task)
-                    prev_task_set.add(prev_task)
+                        is_first_candidate = False
+                calculated_task_set.add(prev_task)
 
             output_task_set = prev_task_set
 
